@@ -230,9 +230,10 @@ fn conservation_tape(o: &Opts, rep: &mut Report, only: Option<(bool, usize)>) {
             tap.extend_from_slice(&[2, 0, 0xFF, 0xFF]);
         }
         let _ = e.load_tape(rustzx_core::host::Tape::Tap(VAsset::new(tap.clone())));
-        e.play_tape();
         load(&mut e, 0x8000, &[0xF3, 0x03, 0xC3, 0x01, 0x80]);
         start(&mut e, 0x8000);
+        // (the deck is started last: the errors are to be met by bus steps of the running program)
+        e.play_tape();
         let want_frames = 3 + k % 3;
         let (mut frames, mut calls, mut errors) = (0usize, 0usize, 0usize);
         while frames < want_frames && calls < 400_000 {
